@@ -43,7 +43,9 @@ func c17Menu(w *wworld.World) []string {
 				ops = append(ops, fmt.Sprintf("lnfinal|%d|%d|S", i, mi), fmt.Sprintf("lnfinal|%d|%d|F", i, mi))
 			}
 			ops = append(ops, fmt.Sprintf("checkmelt|%d|%d", i, mi))
-			if p := w.LN.Payments[m.Hash]; p != nil && p.Attempts < 2 {
+			// a user retrying the quote: while the payment is in flight, after it failed, and after the mint refused the
+			// request outright (no payment was ever attempted)
+			if p := w.LN.Payments[m.Hash]; p == nil || p.Attempts < 2 {
 				ops = append(ops, fmt.Sprintf("remelt|%d|%d", i, mi))
 			}
 		}
